@@ -275,6 +275,23 @@ func c11(r *Report) {
 					}
 				}
 			}
+			// (closed through an interface it was converted to, e.g. by a write-and-close helper taking
+			// an io.WriteCloser)
+			if wv != nil && !closed {
+				for _, cc := range calls(em) {
+					com := cc.Common()
+					var recv ssa.Value
+					switch {
+					case com.IsInvoke() && com.Method.Name() == "Close":
+						recv = com.Value
+					case !com.IsInvoke() && strings.HasSuffix(calleeName(cc), ".Close") && len(com.Args) > 0:
+						recv = com.Args[0]
+					}
+					if recv != nil && w.backSlice(recv, flowOpt{})[wv] {
+						closed = true
+					}
+				}
+			}
 			// what the encoder produced is what goes on the wire: the bytes of the buffer the
 			// encoder writes into reach the payload write / the sink
 			produced := false
